@@ -18,7 +18,7 @@ const MaxShiftCount = 1074
 //
 //   - a constant shift count in (MaxShiftCount, 2^64) is refused by an
 //     implementation restriction;
-//   - a typed floating-point or complex constant with an integral value is
+//   - a typed constant of non-integer type (float64(2), string(1)) is
 //     accepted as shift count although the specification wants an integer type
 //     or an untyped constant;
 //   - copy(nil, "string") is accepted (and crashes gc);
@@ -41,7 +41,7 @@ func NotTrusted(r *Result) string {
 		if !ok || tv.Value == nil || tv.Type == nil {
 			return
 		}
-		if b, ok := tv.Type.Underlying().(*types.Basic); ok && b.Info()&types.IsUntyped == 0 && b.Info()&types.IsInteger == 0 && b.Info()&types.IsNumeric != 0 {
+		if b, ok := tv.Type.Underlying().(*types.Basic); ok && b.Info()&types.IsUntyped == 0 && b.Info()&types.IsInteger == 0 {
 			reason = "typed non-integer constant shift count"
 			return
 		}
